@@ -365,6 +365,9 @@ func runHarness(prog *ssa.Program, pkgs interface{}, spec sym.HarnessSpec, tier 
 		}
 		eng.AddStub(callee, sf)
 	}
+	for _, n := range spec.Noops {
+		eng.AddNoop(n)
+	}
 	res.Report = eng.Run(fn)
 	return
 }
@@ -420,6 +423,9 @@ func printSummary(r *harnessResult) {
 		r.Spec.Name, rp.Paths, rp.PathsByOutcome, rp.Obligations, rp.Trivial, rp.Discharged, len(rp.Violations),
 		rp.Solver.Queries, rp.Solver.Sat, rp.Solver.UnsatN, rp.Solver.UnknownN, rp.Solver.Fallbacks, rp.Solver.FallbackBy,
 		rp.Solver.Time.Seconds(), rp.Wall.Seconds(), rp.Forks, rp.Steps, rp.Reached)
+	if os.Getenv("VERIF_PROFILE") != "" {
+		fmt.Printf("  profile: encode=%.1fs bytes=%dMB witnessHits=%d\n", rp.Solver.EncodeTime.Seconds(), rp.Solver.BytesSent>>20, rp.WitnessHits)
+	}
 }
 
 func fileHash(p string) string {
